@@ -18,7 +18,8 @@
 (***************************************************************************)
 EXTENDS Integers, Sequences, FiniteSets, TLC, Json, IOUtils, SequencesExt
 
-CONSTANT StatusRewrapBug   \* TRUE: endpoint metrics replace the (wrapped) status handler by the bare one
+CONSTANT StatusRewrapBug,  \* TRUE: endpoint metrics replace the (wrapped) status handler by the bare one
+         IdleBypassBug     \* TRUE: the idle-timeout closure calls the bare cache handler instead of the wrapped one
 
 AuthModes == {"none", "basic", "mtls"}
 
@@ -53,7 +54,9 @@ Creds(a) == CASE a = "none"  -> {"none"}
               [] a = "mtls"  -> {"noCert", "unknownCA", "validCert"}
 ValidCred(c) == c \in {"valid", "validCert"}
 
-Configs == {c \in [auth : AuthModes, allow : BOOLEAN, metrics : BOOLEAN] : c.auth = "none" => ~c.allow}
+\* idle: --idle_timeout > 0 puts one more closure around the (already wrapped) cache handler and an
+\* interceptor in front of the gRPC ones; it must not change who gets through
+Configs == {c \in [auth : AuthModes, allow : BOOLEAN, metrics : BOOLEAN, idle : BOOLEAN] : c.auth = "none" => ~c.allow}
 
 HttpReqs == [iface : {"http"}, method : HttpMethods, path : HttpPaths]
 GrpcReqs == [iface : {"grpc"}, method : GrpcMethods, path : {"-"}]
@@ -81,7 +84,8 @@ Handshake(cfg, cred) == ~(cfg.auth = "mtls" /\ cred = "unknownCA")
 MechCache(cfg, r, cred) ==
   CASE cfg.auth = "none" -> TRUE
     [] cfg.auth = "basic" ->
-         IF cfg.allow THEN r.method \in {"GET", "HEAD"} \/ ValidCred(cred)     \* unauthenticatedReadWrapper
+         IF cfg.idle /\ IdleBypassBug THEN TRUE
+         ELSE IF cfg.allow THEN r.method \in {"GET", "HEAD"} \/ ValidCred(cred)     \* unauthenticatedReadWrapper
          ELSE ValidCred(cred)                                                 \* basicAuthWrapper
     [] cfg.auth = "mtls" ->
          \* checks sit inside CacheHandler, per method; other methods fall to "405" unchecked
@@ -145,7 +149,7 @@ InvMechanismIsPolicy == Consistent(cur)
 Expect(x) == IF ~Served(x.cfg, x.req) THEN "inert"
              ELSE IF PolicyAllowed(x.cfg, x.req, x.cred) /\ Handshake(x.cfg, x.cred) THEN "through" ELSE "refused"
 
-Row(x) == [auth |-> x.cfg.auth, allow |-> x.cfg.allow, metrics |-> x.cfg.metrics, iface |-> x.req.iface,
+Row(x) == [auth |-> x.cfg.auth, allow |-> x.cfg.allow, metrics |-> x.cfg.metrics, idle |-> x.cfg.idle, iface |-> x.req.iface,
            method |-> x.req.method, path |-> x.req.path, cred |-> x.cred, expect |-> Expect(x),
            streaming |-> x.req.method \in StreamingGrpc]
 
